@@ -1327,6 +1327,8 @@ def execute(case: Dict[str, Any]) -> Dict[str, Any]:
             stats.merge(run["stats"])
             stats.inc("schedules")
             violations += monitor_fs(case, run, stats, fault_batch)
+            if run["outcome"][0] != "ok":
+                stats.inc("observed.scheduled_run_raised." + str(run["outcome"][1]))
             if not fault_batch:
                 violations += compare_runs(case, ref, run, stats)
             # distinctness: the reads-from map of this schedule
